@@ -52,5 +52,26 @@ def runat : P String := do
     (d', acc.2 ++ [rs ++ " " ++ fmtOpt (d' 0).file ++ " " ++ fmtOpt (d' 0).sidecar ++ " " ++ fmtOpt (d' 1).file ++ " " ++ fmtOpt (d' 1).sidecar])) (d0, [])
   pure (String.intercalate " | " outs)
 
+def pWOp : P WOp := do
+  let t ← tok
+  match t with
+  | "a" => do let c ← pNat; pure (.append c)
+  | "f" => pure .flush
+  | "x" => pure .close
+  | "c" => pure .copy
+  | "k" => pure .closeCopy
+  | _ => failure
+
+/-- `writer <nops> ops…` → per op: closed flag, columns on disk, columns on disk or pending -/
+def writer : P String := do
+  let n ← pNat
+  let ops ← pRepeat n pWOp
+  pEnd
+  let w0 : Writer := { file := [], buf := [], closed := false, copies := 0 }
+  let (_, outs) := ops.foldl (fun (acc : Writer × List String) o =>
+    let w' := wstep acc.1 o
+    (w', acc.2 ++ [(if w'.closed then "1" else "0") ++ " " ++ toString w'.file.length ++ " " ++ String.intercalate "," (w'.content.map toString)])) (w0, [])
+  pure (String.intercalate " | " outs)
+
 end C11
 end HmcVerif
